@@ -49,6 +49,15 @@ def oracle_time(ctx, ss, t, spec):
         ctx.violation(f'{spec}: {msg}', dict(spec=spec) | kw)
     dt, unit = float(t.dt), t.unit
     tv = np.asarray(t.tvec, dtype=float)
+    # the year vector and the date vector name the same instants (Gregorian rule: century years are leap only if divisible by 400)
+    if not t.is_numeric and spec.get('unit') in ('day', 'week'):
+        import calendar
+        yv = np.asarray(t.yearvec, dtype=float)
+        for i, d_ in enumerate(t.datevec):
+            dd = d_.date(); ylen = 366 if calendar.isleap(dd.year) else 365
+            want = dd.year + (dd.timetuple().tm_yday - 1) / ylen
+            if abs(yv[i] - want) > 2e-4:
+                viol(f'year vector and date vector disagree: point {i} is {dd.isoformat()} = year {want:.6f} but yearvec says {yv[i]:.6f}', index=i); break
     if t.is_numeric:
         x = np.asarray(t.timevec, dtype=float)
         if abs(x[0] - float(t.start)) > 1e-6: viol(f'time vector starts at {x[0]}, requested start {t.start}')
@@ -104,9 +113,9 @@ def gen_numeric(rng):
     return dict(kind='numeric', unit=unit, start=start, stop=float(stop), dt=dt)
 
 
-def gen_calendar(rng):
-    unit = rng.choice(['day', 'day', 'week', 'week', 'year', 'month'])
-    y, m = rng.choice([2019, 2020, 2021, 2024]), rng.randint(1, 12)
+def gen_calendar(rng, century=False):
+    unit = rng.choice(['day', 'day', 'week', 'week', 'year', 'month']) if not century else rng.choice(['day', 'week'])
+    y, m = rng.choice([2019, 2020, 2021, 2024] if not century else [2100, 1900, 2099, 2000]), rng.randint(1, 12)      # century years: 1900 and 2100 are not leap years, 2000 is
     d = rng.choice([1, 15, 28, 29, 30, 31])
     while True:
         try: s = dtm.date(y, m, d); break
@@ -135,7 +144,7 @@ def run(ctx):
     terms, specs, times = [], [], []
     n = ctx.n(260, 6000)
     for c in range(n):
-        spec = gen_numeric(rng) if c % 2 == 0 else gen_calendar(rng)
+        spec = gen_numeric(rng) if c % 2 == 0 else gen_calendar(rng, century=(c % 10 == 1))
         try:
             t = ss.Time(start=spec['start'], stop=spec['stop'], dt=spec['dt'], unit=spec['unit'])
         except Exception as E:
@@ -181,6 +190,19 @@ def module_placement(ctx, ss):
     rng = ctx.rng
     from harness.probes import ProbeAna
     terms, metas = [], []
+    # a module that spells the sim's own unit with an accepted alias and leaves everything else to be inherited has exactly the sim's timeline
+    for su, aliases in (('year', ['years', 'yr', 'y']), ('day', ['days', 'd']), ('week', ['weeks', 'wk', 'w'])):
+        for al in aliases:
+            for simkw in (dict(unit=su, dt=0.5, start=2000, dur=4), dict(unit=su, dt=2.0, start='2020-02-01', dur=12)):
+                key = dict(branch='alias', sim=simkw, module=dict(unit=al))
+                try:
+                    sim = ss.Sim(n_agents=20, diseases=ss.SIS(unit=al), networks=ss.RandomNet(), verbose=0, **simkw); sim.init()
+                except Exception as E:
+                    ctx.dist(f'placement rejected by the constructor ({type(E).__name__})'); continue
+                ctx.count(repr(key), nontrivial=True); ctx.dist('placement:alias')
+                st, mt = sim.t, sim.diseases.sis.t
+                if mt.npts != st.npts or not np.allclose(np.asarray(mt.tvec, dtype=float), np.asarray(st.tvec, dtype=float)) or not np.allclose(np.asarray(mt.yearvec, dtype=float), np.asarray(st.yearvec, dtype=float)):
+                    ctx.violation(f'{key}: a module whose unit is the alias {al!r} of the sim unit has {mt.npts} time points (dt {mt.dt}, start {mt.start}); the sim has {st.npts} (dt {st.dt}, start {st.start})', key)
     for c in range(ctx.n(30, 500)):
         branch = rng.choice(['numeric', 'year', 'days'])
         if branch == 'numeric':
